@@ -7,7 +7,7 @@ from ..pyutil import is_self_attr
 
 META = {
     'title': 'Navigation between words, senses and synsets is referentially faithful',
-    'technique': 'navigation-discipline rule shared with C04; class-fact extraction for the eq/hash contract over the repo MRO',
+    'technique': 'navigation-discipline rule shared with C04; class-fact extraction for the eq/hash contract over the repo MRO; effect summaries of the navigation / translate / image methods',
     'explanation': (
         'Which entity a navigation returns on a given database is not decided as such. Decided: R1 element methods navigate only '
         'through queries scoped by self._get_lexicon_ids(), never through the Wordnet-level id lookups (= C04-R3: with two '
